@@ -719,13 +719,13 @@ theorem rejL_cons (x : Nat) (o : Listener.Out) (os : List Listener.Out) :
 /-- the outputs of a listener operation are folded into the world: every accepted answer and every rejection
     takes its event out of transit -- the first for good, the second back to the head of the pool's buffer -/
 theorem j_absorb (h : Bytes → HRes) (pi li : Nat) : ∀ (os : List Listener.Out) (w : W),
-    (∃ p, w.pools[pi]? = some p ∧ li < p.procs.length) →
+    (∃ p, w.pools[pi]? = some p ∧ li < p.procs.length) → pi ∈ rejecters w.reg →
     J h w pi (fun x => okL h x os + rejL x os) → J h (absorb pi li os w) pi (fun _ => 0) ∧ Quiet w (absorb pi li os w)
-  | [], w, _, hj => by
+  | [], w, _, _, hj => by
     have : absorb pi li [] w = w := rfl
     rw [this]
     exact ⟨J.congr_d (by intro x; simp [okL, rejL]) hj, Quiet.refl w⟩
-  | o :: os, w, hpl, hj => by
+  | o :: os, w, hpl, hsub, hj => by
     obtain ⟨p, hp, hli⟩ := hpl
     -- the entry is recorded
     have h1 : J h { w with outs := w.outs ++ [.lis pi li o] } pi (fun x => okL h x os + rejL x (o :: os)) :=
@@ -745,7 +745,7 @@ theorem j_absorb (h : Bytes → HRes) (pi li : Nat) : ∀ (os : List Listener.Ou
     have hplain : (∀ x, isRejOut x o = false) → J h (absorb pi li os { w with outs := w.outs ++ [.lis pi li o] }) pi (fun _ => 0) ∧
         Quiet w (absorb pi li os { w with outs := w.outs ++ [.lis pi li o] }) := by
       intro hr
-      obtain ⟨a, b⟩ := j_absorb h pi li os _ (hkeep _ (Quiet.refl _)) (J.congr_d (by intro x; rw [rejL_cons, hr x]; simp) h1)
+      obtain ⟨a, b⟩ := j_absorb h pi li os _ (hkeep _ (Quiet.refl _)) hsub (J.congr_d (by intro x; rw [rejL_cons, hr x]; simp) h1)
       exact ⟨a, Quiet.trans hq1 b⟩
     cases o with
     | rejected ev =>
@@ -756,7 +756,7 @@ theorem j_absorb (h : Bytes → HRes) (pi li : Nat) : ∀ (os : List Listener.Ou
         obtain ⟨ho1, ho2⟩ := hj.st.owner pi li p hp hli
         have hrej : rejected (whoOf w pi li) e { w with outs := w.outs ++ [.lis pi li (.rejected (some e))] } =
             acceptEvent pi e true { w with outs := w.outs ++ [.lis pi li (.rejected (some e))] } :=
-          rejected_eq _ pi e _ p hp ho1 ho2
+          rejected_eq _ pi e _ p hp hj.rg.rejecters_nodup hsub ho1 ho2
         rw [hrej]
         have h1' : J h { w with outs := w.outs ++ [.lis pi li (.rejected (some e))] } pi
             (fun x => (if x = e then 1 else 0) + (okL h x os + rejL x os)) :=
@@ -771,7 +771,8 @@ theorem j_absorb (h : Bytes → HRes) (pi li : Nat) : ∀ (os : List Listener.Ou
         have hq2 := q_rebuffer h pi e _ (fun x => okL h x os + rejL x os) h1'
         suffices hs : ∃ p', (acceptEvent pi e true { w with outs := w.outs ++ [.lis pi li (.rejected (some e))] }).pools[pi]? = some p' ∧
             li < p'.procs.length by
-          obtain ⟨a, b⟩ := j_absorb h pi li os _ hs h2
+          obtain ⟨a, b⟩ := j_absorb h pi li os _ hs
+            (by rw [reg_of_rview (rview_acceptEvent pi e true _)]; exact hsub) h2
           exact ⟨a, Quiet.trans hq1 (Quiet.trans hq2 b)⟩
         have hA : Acc { w with outs := w.outs ++ [.lis pi li (.rejected (some e))] } pi e := by
           refine acc_of_accepted h1.sv pi e ?_
@@ -854,24 +855,31 @@ theorem j_onListener (h : Bytes → HRes) (pi li : Nat) (f : Listener.S → List
     · rename_i p hp
       split
       · exact ⟨hj, Quiet.refl w⟩
-      · rename_i l hl
-        have hmem : l ∈ p.procs := List.mem_of_getElem? hl
-        obtain ⟨⟨lo, ho, hns, hcons⟩, hok⟩ := hf l (hj.ls pi p l hp hmem)
-        simp only [List.nil_append] at ho
-        subst ho
-        have hj0 : J h w pi (fun _ => 0) := ⟨hj.st, hj.ls, hj.sv, ledger_zero h w k pi hj.led⟩
-        have h1 := j_setProc h w pi li p l (f { p := l }).p (fun _ => 0)
-          (fun x => okL h x (f { p := l }).outs + rejL x (f { p := l }).outs) hp hl hok
-          (by intro x
-              have : heldL (f { p := l }).p x + okL h x (f { p := l }).outs + rejL x (f { p := l }).outs = heldL l x := hcons x
-              omega) hj0
-        have hli : li < p.procs.length := (List.getElem?_eq_some_iff.mp hl).1
-        have h2 := j_absorb h pi li (f { p := l }).outs _ ⟨{ p with procs := p.procs.set li (f { p := l }).p },
-          by rw [getElem?_setPool]; simp [hp], by simpa using hli⟩ h1
-        have h3 := j_err h _ pi (fun _ => 0) (f { p := l }).err h2.1
-        have hq0 : Quiet w (setPool w pi (fun q => { q with procs := q.procs.set li (f { p := l }).p })) :=
-          quiet_setPool w pi _ (fun q => by simp [kview])
-        exact ⟨⟨h3.st, h3.ls, h3.sv, ledger_zero h _ pi k h3.led⟩, Quiet.trans hq0 (Quiet.trans h2.2 (quiet_err _ _))⟩
+      · rename_i hact
+        have hsub : pi ∈ rejecters w.reg :=
+          (hj.rg.mem_rejecters pi).mpr ⟨p, hp, by cases ha : p.active <;> simp_all⟩
+        split
+        · exact ⟨hj, Quiet.refl w⟩
+        · rename_i l hl
+          have hmem : l ∈ p.procs := List.mem_of_getElem? hl
+          obtain ⟨⟨lo, ho, hns, hcons⟩, hok⟩ := hf l (hj.ls pi p l hp hmem)
+          simp only [List.nil_append] at ho
+          subst ho
+          have hj0 : J h w pi (fun _ => 0) := ⟨hj.st, hj.ls, hj.sv, ledger_zero h w k pi hj.led, hj.rg⟩
+          have h1 := j_setProc h w pi li p l (f { p := l }).p (fun _ => 0)
+            (fun x => okL h x (f { p := l }).outs + rejL x (f { p := l }).outs) hp hl hok
+            (by intro x
+                have : heldL (f { p := l }).p x + okL h x (f { p := l }).outs + rejL x (f { p := l }).outs = heldL l x := hcons x
+                omega) hj0
+          have hli : li < p.procs.length := (List.getElem?_eq_some_iff.mp hl).1
+          have h2 := j_absorb h pi li (f { p := l }).outs
+            (setPool w pi (fun q => { q with procs := q.procs.set li (f { p := l }).p }))
+            ⟨{ p with procs := p.procs.set li (f { p := l }).p },
+            by rw [getElem?_setPool]; simp [hp], by simpa using hli⟩ hsub h1
+          have h3 := j_err h _ pi (fun _ => 0) (f { p := l }).err h2.1
+          have hq0 : Quiet w (setPool w pi (fun q => { q with procs := q.procs.set li (f { p := l }).p })) :=
+            quiet_setPool w pi _ (fun q => by simp [kview])
+          exact ⟨⟨h3.st, h3.ls, h3.sv, ledger_zero h _ pi k h3.led, h3.rg⟩, Quiet.trans hq0 (Quiet.trans h2.2 (quiet_err _ _))⟩
 
 /-! ### `dispatch` -/
 
@@ -1079,6 +1087,88 @@ theorem j_spawnOp (h : Bytes → HRes) (pi li k : Nat) (pid : Int) (payload : By
       · exact hj
       · exact (j_onListener h pi li (spawn pid) _ k (fun l hl => lt_spawn h pid _ hl) (j_notify h _ payload w k hj)).1
 
+/-! ### pools removed and added at run time -/
+
+theorem setPool_map_eq {β : Type} (w : W) (i j : Nat) (f : PoolSt → PoolSt) (g : PoolSt → β) (hf : ∀ p, g (f p) = g p) :
+    ((setPool w i f).pools[j]?).map g = (w.pools[j]?).map g := by
+  rw [getElem?_setPool]
+  split
+  · cases w.pools[j]? <;> simp [hf]
+  · rfl
+
+/-- a change that leaves the event records, the counters, the buffers, the listeners and the trace alone (only the
+    registry and the `active` / `used` flags differ) keeps the invariant, provided the registry invariant holds afterwards -/
+theorem j_reframe (h : Bytes → HRes) (w w' : W) (k : Nat) (d : Nat → Nat) (hq : Quiet w w') (ho : w'.outs = w.outs)
+    (hfix : ∀ j : Nat, (w'.pools[j]?).map fixedPart = (w.pools[j]?).map fixedPart)
+    (hbuf : ∀ j : Nat, (w'.pools[j]?).map (·.buffer) = (w.pools[j]?).map (·.buffer))
+    (hr : RegOK w') (hj : J h w k d) : J h w' k d := by
+  refine ⟨Static.of_shapes hq.shapes hj.st, LAll.of_fixed hfix hj.ls, hq.sinv hj.sv, ?_, hr⟩
+  intro pj x
+  have hw := hj.led pj x
+  have hb : inBuffer w' pj x = inBuffer w pj x := by
+    unfold inBuffer
+    have := hbuf pj
+    cases h1 : w'.pools[pj]? <;> cases h2 : w.pools[pj]? <;> simp [h1, h2] at this ⊢
+    rw [this]
+  have hh : heldBy w' pj x = heldBy w pj x := by
+    unfold heldBy
+    have := hfix pj
+    cases h1 : w'.pools[pj]? <;> cases h2 : w.pools[pj]? <;> simp [h1, h2, fixedPart] at this ⊢
+    rw [this.1]
+  rw [hq.acc_eq, hb, hh, ho]
+  exact hw
+
+theorem quiet_reg (w : W) (r : List Entry) : Quiet w { w with reg := r } := ⟨rfl, rfl, rfl⟩
+
+theorem quiet_deactivate (pi : Nat) (p : PoolSt) (w : W) : Quiet w (deactivate pi p w) :=
+  Quiet.trans (quiet_reg w _) (quiet_setPool _ pi _ (fun q => by simp [kview]))
+
+theorem quiet_activate (pi : Nat) (p : PoolSt) (w : W) : Quiet w (activate pi p w) :=
+  Quiet.trans (quiet_setPool w pi _ (fun q => by simp [kview])) (quiet_reg _ _)
+
+theorem j_deactivate (h : Bytes → HRes) (pi k : Nat) (p : PoolSt) (w : W) (d : Nat → Nat) (hp : w.pools[pi]? = some p)
+    (hj : J h w k d) : J h (deactivate pi p w) k d :=
+  j_reframe h w _ k d (quiet_deactivate pi p w) rfl
+    (fun j => setPool_map_eq _ pi j _ fixedPart (fun q => rfl))
+    (fun j => setPool_map_eq _ pi j _ (·.buffer) (fun q => rfl))
+    (regOK_deactivate pi p w hp hj.rg) hj
+
+theorem j_activate (h : Bytes → HRes) (pi k : Nat) (p : PoolSt) (w : W) (d : Nat → Nat) (hp : w.pools[pi]? = some p)
+    (hna : p.active = false) (hj : J h w k d) : J h (activate pi p w) k d :=
+  j_reframe h w _ k d (quiet_activate pi p w) rfl
+    (fun j => setPool_map_eq w pi j _ fixedPart (fun q => rfl))
+    (fun j => setPool_map_eq w pi j _ (·.buffer) (fun q => rfl))
+    (regOK_activate pi p w hp hna hj.rg) hj
+
+/-- `remove_process_group` of a pool: refused (nothing changes) or unsubscribed, out of the table, announced -/
+theorem j_removeOp (h : Bytes → HRes) (pi k : Nat) (w : W) (hj : J h w k (fun _ => 0)) :
+    J h (removeOp pi w) k (fun _ => 0) := by
+  unfold removeOp
+  split
+  · exact hj
+  · cases hp : w.pools[pi]? with
+    | none => simp [removeRun, hp]; exact hj
+    | some p =>
+      rw [removeRun_eq pi w p hp]
+      split
+      · exact hj
+      · exact j_notify h _ _ _ k (j_deactivate h pi k p w _ hp hj)
+
+/-- `add_process_group` of a pool: refused (already there) or created, subscribed, in the table, announced -/
+theorem j_addOp (h : Bytes → HRes) (pi k : Nat) (w : W) (hj : J h w k (fun _ => 0)) :
+    J h (addOp pi w) k (fun _ => 0) := by
+  unfold addOp
+  split
+  · exact hj
+  · cases hp : w.pools[pi]? with
+    | none => simp [addRun, hp]; exact hj
+    | some p =>
+      rw [addRun_eq pi w p hp]
+      split
+      · exact hj
+      · rename_i ha
+        exact j_notify h _ _ _ k (j_activate h pi k p w _ hp (by cases hh : p.active <;> simp_all) hj)
+
 theorem j_applyOp (h : Bytes → HRes) (w : W) (op : Op) (k : Nat) (hj : J h w k (fun _ => 0)) :
     J h (applyOp h w op) k (fun _ => 0) := by
   cases op <;> simp only [applyOp]
@@ -1093,10 +1183,15 @@ theorem j_applyOp (h : Bytes → HRes) (w : W) (op : Op) (k : Nat) (hj : J h w k
       (fun l hl => lt_ns h (s := { p := l }) hl (ns_setP _ _ ⟨rfl, rfl, rfl, rfl, rfl⟩)) hj).1
   · exact j_dieOp h _ _ k _ _ w hj
   · exact j_spawnOp h _ _ k _ _ w hj
+  · exact j_removeOp h _ k w hj
+  · exact j_addOp h _ k w hj
 
 theorem j_step (h : Bytes → HRes) (w : W) (op : Op) (k : Nat) (hj : J h w k (fun _ => 0)) :
-    J h (step h w op) k (fun _ => 0) :=
-  j_applyOp h _ op k (j_err h w k _ none hj)
+    J h (step h w op) k (fun _ => 0) := by
+  unfold step
+  split
+  · exact j_err h w k _ none hj
+  · exact j_applyOp h _ op k (j_err h w k _ none hj)
 
 theorem j_exec (h : Bytes → HRes) (k : Nat) : ∀ (ops : List Op) (w : W), J h w k (fun _ => 0) → J h (exec h w ops) k (fun _ => 0)
   | [], w, hj => hj
@@ -1205,6 +1300,36 @@ theorem keeps_spawnOp (h : Bytes → HRes) (n pi li k : Nat) (pid : Int) (payloa
           (j_onListener h pi li (spawn pid) _ k (fun l hl => lt_spawn h pid _ hl)
             (j_notify h .PROCESS_STATE_STARTING payload w k hj)).2)
 
+theorem keeps_removeOp (h : Bytes → HRes) (n pi k : Nat) (w : W) (hn : n ≤ w.events.length)
+    (hj : J h w k (fun _ => 0)) : Keeps n w (removeOp pi w) := by
+  unfold removeOp
+  split
+  · exact Keeps.refl n w
+  · cases hp : w.pools[pi]? with
+    | none => simp [removeRun, hp]; exact Keeps.refl n w
+    | some p =>
+      rw [removeRun_eq pi w p hp]
+      split
+      · exact Keeps.refl n w
+      · have k1 := Keeps.of_quiet n (quiet_deactivate pi p w)
+        exact Keeps.trans k1 (keeps_notify h n k _ _ _ (Nat.le_trans hn k1.1) (j_deactivate h pi k p w _ hp hj))
+
+theorem keeps_addOp (h : Bytes → HRes) (n pi k : Nat) (w : W) (hn : n ≤ w.events.length)
+    (hj : J h w k (fun _ => 0)) : Keeps n w (addOp pi w) := by
+  unfold addOp
+  split
+  · exact Keeps.refl n w
+  · cases hp : w.pools[pi]? with
+    | none => simp [addRun, hp]; exact Keeps.refl n w
+    | some p =>
+      rw [addRun_eq pi w p hp]
+      split
+      · exact Keeps.refl n w
+      · rename_i ha
+        have k1 := Keeps.of_quiet n (quiet_activate pi p w)
+        exact Keeps.trans k1 (keeps_notify h n k _ _ _ (Nat.le_trans hn k1.1)
+          (j_activate h pi k p w _ hp (by cases hh : p.active <;> simp_all) hj))
+
 theorem keeps_applyOp (h : Bytes → HRes) (n k : Nat) (w : W) (op : Op) (hn : n ≤ w.events.length)
     (hj : J h w k (fun _ => 0)) : Keeps n w (applyOp h w op) := by
   cases op <;> simp only [applyOp]
@@ -1219,10 +1344,15 @@ theorem keeps_applyOp (h : Bytes → HRes) (n k : Nat) (w : W) (op : Op) (hn : n
       (fun l hl => lt_ns h (s := { p := l }) hl (ns_setP _ _ ⟨rfl, rfl, rfl, rfl, rfl⟩)) hj).2
   · exact keeps_dieOp h n _ _ k _ _ w hn hj
   · exact keeps_spawnOp h n _ _ k _ _ w hn hj
+  · exact keeps_removeOp h n _ k w hn hj
+  · exact keeps_addOp h n _ k w hn hj
 
 theorem keeps_step (h : Bytes → HRes) (n k : Nat) (w : W) (op : Op) (hn : n ≤ w.events.length)
-    (hj : J h w k (fun _ => 0)) : Keeps n w (step h w op) :=
-  Keeps.trans (Keeps.of_quiet n (quiet_err w none)) (keeps_applyOp h n k _ op hn (j_err h w k _ none hj))
+    (hj : J h w k (fun _ => 0)) : Keeps n w (step h w op) := by
+  unfold step
+  split
+  · exact Keeps.of_quiet n (quiet_err w none)
+  · exact Keeps.trans (Keeps.of_quiet n (quiet_err w none)) (keeps_applyOp h n k _ op hn (j_err h w k _ none hj))
 
 /-- whether a pool has accepted an event that exists now is never changed by anything that happens later -/
 theorem keeps_exec (h : Bytes → HRes) (n k : Nat) : ∀ (ops : List Op) (w : W), n ≤ w.events.length → J h w k (fun _ => 0) →
@@ -1309,13 +1439,14 @@ theorem static_assignIds (ps : List PoolSt) (hn : (ps.map (·.name)).Nodup) : St
     exact assignIds_own ps 0 i j p q x hp hq hx hy
 
 theorem j_fresh (h : Bytes → HRes) (ps : List PoolSt) (hf : FreshPools ps) (k : Nat) :
-    J h { pools := assignIds 0 ps } k (fun _ => 0) := by
+    J h (boot (assignIds 0 ps)) k (fun _ => 0) := by
   have hback : ∀ (i : Nat) (q : PoolSt), (assignIds 0 ps)[i]? = some q → ∃ p ∈ ps, q.serial = p.serial ∧ q.buffer = p.buffer ∧ q.procs = p.procs := by
     intro i q hq
     obtain ⟨p0, _, h1, _, h3⟩ := assignIds_getElem? ps 0 i q hq
     subst h3
     exact ⟨p0, List.mem_of_getElem? h1, rfl, rfl, rfl⟩
-  refine ⟨static_assignIds ps hf.names, ?_, ⟨?_, ?_, ?_⟩, ?_⟩
+  refine ⟨Static.of_shapes (w := { pools := assignIds 0 ps }) rfl (static_assignIds ps hf.names), ?_, ⟨?_, ?_, ?_⟩, ?_,
+    regOK_boot _⟩
   · intro i q l hq hl
     obtain ⟨p, hp, _, _, h3⟩ := hback i q hq
     exact ((hf.start p hp).2.2 l (by rw [← h3]; exact hl)).1
@@ -1324,15 +1455,22 @@ theorem j_fresh (h : Bytes → HRes) (ps : List PoolSt) (hf : FreshPools ps) (k 
     obtain ⟨p, hp, h1, _, _⟩ := hback i q hq
     have : q.serial = initialSerial := by rw [h1]; exact (hf.start p hp).1
     rw [this]; exact chain_nil
-  · intro e ev hev; simp at hev
+  · intro e ev hev
+    have : (boot (assignIds 0 ps)).events = [] := rfl
+    rw [this] at hev; simp at hev
   · intro pj x
-    have hacc : accepted ({ pools := assignIds 0 ps } : W) pj x = false := by
+    have hpools : (boot (assignIds 0 ps)).pools = assignIds 0 ps := rfl
+    have houts : (boot (assignIds 0 ps)).outs = [] := rfl
+    have hacc : accepted (boot (assignIds 0 ps)) pj x = false := by
       unfold accepted
+      show (match (assignIds 0 ps)[pj]?, ([] : List Ev)[x]? with
+        | some p, some ev => (ev.poolSerials.lookup p.name).isSome
+        | _, _ => false) = false
       cases (assignIds 0 ps)[pj]? <;> simp
     rw [hacc]
-    simp only [okCount, discardCount, List.countP_nil, ite_self, Nat.add_zero, Bool.toNat_false]
+    simp only [okCount, discardCount, houts, List.countP_nil, ite_self, Nat.add_zero, Bool.toNat_false]
     cases hq : (assignIds 0 ps)[pj]? with
-    | none => simp [inBuffer, heldBy, hq]
+    | none => simp [inBuffer, heldBy, hpools, hq]
     | some q =>
       obtain ⟨p, hp, _, h2, h3⟩ := hback pj q hq
       have hb : q.buffer = [] := by rw [h2]; exact (hf.start p hp).2.1
@@ -1341,6 +1479,6 @@ theorem j_fresh (h : Bytes → HRes) (ps : List PoolSt) (hf : FreshPools ps) (k 
         intro l hl
         have := ((hf.start p hp).2.2 l (by rw [← h3]; exact hl)).2
         simp [this]
-      simp [inBuffer, heldBy, hq, hb, hh]
+      simp [inBuffer, heldBy, hpools, hq, hb, hh]
 
 end Sv.Pool
